@@ -57,6 +57,9 @@ CHECKS = {
  "C09": ("exploration", "structure-aware fuzzing of the real method table with a process-wide panic hook, liveness probes (read + write round) and logical hang witnesses",
          "Every registered method is driven in-process with typed mutations of well-formed templates, random/mutated bytecode, ABI-valid boundary and ABI-invalid precompile inputs (direct, via contract, via overrides, via executed transactions) in five engine states; any panic while serving, any lost liveness (height must rise by exactly one in a write round) and any mine overrun is a violation; watchdog expiry is inconclusive.",
          "Sampled inputs; HTTP framing layer is covered by C12/C20 only; brc20_mine only with small counts."),
+ "C04": ("fault_enumeration", "failpoint-driven fault enumeration with real process deaths (_exit before the k-th RocksDB write), reopen, recovery reorg, Obs vs fresh replay",
+         "A child process replays a generated history and is killed immediately before the k-th put/delete/flush of a commit / reorg / finalise (or between calls); the parent reopens the directory, runs reorg(N) for durable heights N in the window on copies, and compares Obs with a fresh replay to N and a two-block extension; finalise/between-call crashes must leave exactly the last committed state.",
+         "Crash = process death (page cache survives); torn RocksDB writes/fsync loss out of scope; crash points sampled in quick (stride + table boundaries), denser in thorough."),
 }
 NOT_YET = "check not built yet in this session (planned, see DESIGN.md)"
 ALL = ["C%02d" % i for i in range(1, 21)]
